@@ -236,6 +236,7 @@ func (c *Ctx) contractCall(fr *Frame, st *State, site ssa.Instruction, fn *ssa.F
 		c.oblige("pre", fmt.Sprintf("%s#call[%s].pre[%s]", caller, callee, lbl(rq)), rq.Label, rq.Props, g.Term, site.Pos(), rq.Src)
 		c.assume(g.Term)
 	}
+	c.atCallAsserts(fr, st, site, fn, env)
 	if con.Fd != "" {
 		want := con.Fd
 		if want == "entry" {
@@ -247,8 +248,18 @@ func (c *Ctx) contractCall(fr *Frame, st *State, site ssa.Instruction, fn *ssa.F
 	if con.Panics != nil {
 		pc := env.evalTop(con.Panics)
 		// the caller may only reach a panicking call if it declares so itself
-		c.callMayPanic(fr, st, site, callee, pc.Term, con.Panics)
+		c.callMayPanic(fr, st, site, callee, pc.Term, con.Panics, "panic")
 		c.assume(not(pc.Term))
+	}
+	if con.Exits != nil {
+		pc := env.evalTop(con.Exits)
+		c.callMayPanic(fr, st, site, callee, pc.Term, con.Exits, "exit")
+		c.assume(not(pc.Term))
+	}
+	if con.MayPanic {
+		if top := c.topFrame; top == nil || top.con == nil || !top.con.MayPanic {
+			c.oblige("safety", fmt.Sprintf("%s#call[%s].no-panic", caller, callee), "", nil, "false", site.Pos(), "callee is declared 'maypanic' but the caller claims panic-freedom")
+		}
 	}
 	if con.NoReturn {
 		exits = append(exits, &exitInfo{kind: "exit", st: st.clone(), reach: c.curReach, site: site, fr: fr, val: firstArg(args)})
@@ -262,8 +273,12 @@ func (c *Ctx) contractCall(fr *Frame, st *State, site ssa.Instruction, fn *ssa.F
 		}
 	}
 	// frame
-	locs := c.assignLocs(env, con)
-	c.havocLocs(st, pre, locs, "call")
+	if con.AssignsAll {
+		c.havocEverything(st)
+	} else {
+		locs := c.assignLocs(env, con)
+		c.havocLocs(st, pre, locs, "call")
+	}
 	// allocation frontier may advance
 	nx := c.fresh("next", "Int")
 	c.assumeAlways(app(">=", nx, c.next(st)))
@@ -302,21 +317,74 @@ func (c *Ctx) freshResult(st *State, rt types.Type, hint string) *Val {
 }
 
 // callMayPanic: obligation that the callee's panic condition is excluded (or covered by the caller's own).
-func (c *Ctx) callMayPanic(fr *Frame, st *State, site ssa.Instruction, callee, cond string, cl *Clause) {
+func (c *Ctx) callMayPanic(fr *Frame, st *State, site ssa.Instruction, callee, cond string, cl *Clause, kind string) {
 	caller := c.relName(fr.fn)
 	top := c.topFrame
-	if top != nil && top.con != nil && top.con.Panics != nil && !fr.inlined || (top != nil && top.con != nil && top.con.Panics != nil) {
+	if top != nil && top.con != nil && top.con.MayPanic {
+		return
+	}
+	var own *Clause
+	if top != nil && top.con != nil {
+		own = top.con.Panics
+		if kind == "exit" {
+			own = top.con.Exits
+		}
+	}
+	if own != nil {
 		env := &Env{c: c, fr: top, fn: top.fn, st: top.old, old: top.old, vars: map[string]*Val{}, fd: top.fd}
 		for i, p := range top.fn.Params {
 			if i < len(top.params) {
 				env.vars[p.Name()] = top.params[i]
 			}
 		}
-		own := env.evalTop(top.con.Panics)
-		c.oblige("safety", fmt.Sprintf("%s#call[%s].panics-covered", caller, callee), cl.Label, cl.Props, implies(cond, own.Term), site.Pos(), "callee panics only when the caller's 'panics when' holds")
+		ov := env.evalTop(own)
+		c.oblige("safety", fmt.Sprintf("%s#call[%s].%s-covered", caller, callee, kind), own.Label, own.Props, implies(cond, ov.Term), site.Pos(), "callee "+kind+"s only when the caller's '"+kind+"s when' holds: "+own.Src)
 		return
 	}
-	c.oblige("safety", fmt.Sprintf("%s#call[%s].no-panic", caller, callee), cl.Label, cl.Props, not(cond), site.Pos(), "callee does not panic: !("+cl.Src+")")
+	c.oblige("safety", fmt.Sprintf("%s#call[%s].no-%s", caller, callee, kind), cl.Label, cl.Props, not(cond), site.Pos(), "callee does not "+kind+": !("+cl.Src+")")
+}
+
+// havocEverything: the callee may write any heap location, global and ghost variable.
+func (c *Ctx) havocEverything(st *State) {
+	next := c.next(st)
+	if c.dry > 0 && c.wr != nil {
+		c.wr.everything = true
+	}
+	c.nepoch++
+	st.epoch = c.nepoch
+	st.heap = map[string]string{}
+	nx := c.fresh("next", "Int")
+	c.assumeAlways(app(">=", nx, next))
+	st.heap["$next"] = nx
+}
+
+// atCallAsserts checks the top-level contract's "at call <callee> assert e" clauses at this call site.
+func (c *Ctx) atCallAsserts(fr *Frame, st *State, site ssa.Instruction, callee *ssa.Function, cenv *Env) {
+	top := c.topFrame
+	if top == nil || top.con == nil || c.dry > 0 || c.pure > 0 {
+		return
+	}
+	rel := callee.RelString(nil)
+	if callee.Pkg != nil {
+		rel = callee.RelString(callee.Pkg.Pkg)
+	}
+	for _, a := range top.con.Asserts {
+		if a.Where != "call "+rel {
+			continue
+		}
+		env := &Env{c: c, fr: top, fn: top.fn, st: st, old: top.old, vars: map[string]*Val{}, fd: top.fd}
+		for i, p := range top.fn.Params {
+			if i < len(top.params) {
+				env.vars[p.Name()] = top.params[i]
+			}
+		}
+		for k, v := range cenv.vars {
+			env.vars["callee."+k] = v
+		}
+		g := env.evalTop(a.Clause)
+		c.oblige("assert", fmt.Sprintf("%s#at-call[%s].assert[%s]", c.relName(top.fn), c.relName(callee), lbl(a.Clause)), a.Clause.Label, a.Clause.Props, g.Term, site.Pos(), a.Clause.Src)
+		c.atCallSeen[a] = true
+	}
 }
 
 // applyEffect executes "target = expr" on st.
@@ -801,8 +869,8 @@ func (e *Env) lvalue(x ast.Expr) *Ptr {
 		v := e.eval(n.X)
 		return c.ptrOf(v)
 	case *ast.Ident:
-		if pkg := e.pkg(); pkg != nil {
-			if g, ok := pkg.Members[n.Name].(*ssa.Global); ok {
+		if g := e.globalByName(n.Name); g != nil {
+			{
 				if _, shadow := e.vars[n.Name]; !shadow {
 					return c.ptrOf(c.val(nil2(e.fr), e.st, g))
 				}
@@ -814,10 +882,8 @@ func (e *Env) lvalue(x ast.Expr) *Ptr {
 		var bp *Ptr
 		if id, ok := n.X.(*ast.Ident); ok {
 			if _, bound := e.vars[id.Name]; !bound {
-				if pkg := e.pkg(); pkg != nil {
-					if g, ok := pkg.Members[id.Name].(*ssa.Global); ok {
-						bp = c.ptrOf(c.val(nil2(e.fr), e.st, g))
-					}
+				if g := e.globalByName(id.Name); g != nil {
+					bp = c.ptrOf(c.val(nil2(e.fr), e.st, g))
 				}
 			}
 		}
@@ -927,3 +993,17 @@ func (c *Ctx) havocLocs(st, pre *State, locs []loc, tag string) {
 }
 
 var _ = token.ADD
+
+func (e *Env) globalByName(name string) *ssa.Global {
+	if pkg := e.pkg(); pkg != nil {
+		if g, ok := pkg.Members[name].(*ssa.Global); ok {
+			return g
+		}
+	}
+	if rp := e.c.prog.Pkgs[rootPkg]; rp != nil {
+		if g, ok := rp.Members[name].(*ssa.Global); ok {
+			return g
+		}
+	}
+	return nil
+}
